@@ -346,6 +346,117 @@ def reader_skeleton_clauses(idl, mem):
     o.append("//@   sites ).Skip = %d" % len(skips))
     return o
 
+
+def reader_roles(idl, mem):
+    """per Read*/ReadBlock call of a generated ReadFrom (same order as reader_skeleton): its role
+    ('member'|'len'|'elem'|'key'|'val'|'payload', container ordinal or None, is a struct block)"""
+    roles = []
+    cont = [0]
+    def walk(t, role, c):
+        if t[0] == "map":
+            k = cont[0]; cont[0] += 1
+            roles.append(("len", k, False))
+            walk(t[1], "key", k); walk(t[2], "val", k)
+        elif t[0] == "vector" and t[1] in (("name", "byte"), ("name", "unsigned byte")):
+            k = cont[0]; cont[0] += 1
+            roles.append(("len", k, False)); roles.append(("elem", k, False))
+            roles.append(("len", k, False)); roles.append(("payload", k, False))
+        elif t[0] in ("vector", "array"):
+            k = cont[0]; cont[0] += 1
+            roles.append(("len", k, False))
+            walk(t[1], "elem", k)
+        else:
+            roles.append((role, c, t[1] in idl))
+    for tag, req, ity, name, dflt in sorted(mem):
+        walk(parse_type(ity), "member", None)
+    return roles
+
+def reader_storage_clauses(idl, mem, body):
+    """Where a generated reader stores what it reads (C03/C04: element i of a vector goes to index i; the entry of a map
+    is read key first (tag 0) into the variable that is then used as the key of the map assignment, value (tag 1)
+    into the one that is assigned). The loops of the reader are the containers in traversal order; their index
+    variable, target and map assignment are taken from the source, the roles from the IDL."""
+    ls = loops(body)
+    lines = body.split("\n")
+    # map assignment per loop: target[key] = value (first such line after the loop head, before the next loop)
+    heads = [i for i, l in enumerate(lines) if re.search(r'^\s*for\b', l)]
+    assigns = {}
+    for n, h in enumerate(heads):
+        end = heads[n + 1] if n + 1 < len(heads) else len(lines)
+        # the assignment of a map loop comes after nested loops too: search until the loop's closing brace
+        ind = len(lines[h]) - len(lines[h].lstrip("\t"))
+        for j in range(h + 1, len(lines)):
+            l = lines[j]
+            if l.strip() == "}" and len(l) - len(l.lstrip("\t")) == ind:
+                break
+            m = re.match(r'^\s*(\S+)\[(\w+)\] = (\w+)\s*$', l)
+            if m and (len(l) - len(l.lstrip("\t"))) == ind + 1:
+                assigns[n] = (m.group(1), m.group(2), m.group(3))
+    o = []
+    roles = reader_roles(idl, mem)
+    # containers whose elements are bytes live in the byte heap of the verifier (no per-element address)
+    bytelike, cnt = set(), [0]
+    def mark(t):
+        if t[0] == "map":
+            cnt[0] += 1; mark(t[1]); mark(t[2])
+        elif t[0] in ("vector", "array"):
+            k = cnt[0]; cnt[0] += 1
+            if t[1] in (("name", "byte"), ("name", "unsigned byte"), ("name", "bool")):
+                bytelike.add(k)
+            mark(t[1])
+    for tag, req, ity, name, dflt in sorted(mem):
+        mark(parse_type(ity))
+    for k, (role, c, isblock) in enumerate(roles):
+        if c is None or c >= len(ls):
+            continue
+        info = ls[c]
+        arg = "$0" if isblock else "$1"   # ReadBlock: the receiver is the destination
+        if role == "elem" and info["kind"] == "vec" and info["target"] and info["idx"] and c not in bytelike:
+            o.append("//@   site ).Read#%d assert [C04] %s == addr(%s[%s])" % (k, arg, info["target"], info["idx"]))
+        elif role in ("key", "val") and info["kind"] == "map" and c in assigns:
+            var = assigns[c][1] if role == "key" else assigns[c][2]
+            o.append("//@   site ).Read#%d assert [C04] %s == addr(%s)" % (k, arg, var))
+    return o
+
+def writer_value_clauses(idl, mem, body):
+    """What a generated writer writes in its container loops (C03): the element write of a vector loop writes the
+    loop's element variable, the two writes of a map loop write the key variable under tag 0 and the value variable
+    under tag 1 (variable names from the range statements of the source, in traversal order)."""
+    ranges = re.findall(r'^\s*for (\w+), (\w+) := range (\S+) \{', body, re.M)
+    sk = writer_skeleton(idl, mem)
+    # walk the IDL again to know which skeleton entries are element / key / value writes of which container
+    roles = []
+    cont = [0]
+    def walk(t, role, c):
+        if t[0] == "map":
+            k = cont[0]; cont[0] += 1
+            roles.append(None); roles.append(None)
+            walk(t[1], "key", k); walk(t[2], "val", k)
+        elif t[0] == "vector" and t[1] == ("name", "byte"):
+            roles.extend([None, None, None, None])
+        elif t[0] in ("vector", "array"):
+            k = cont[0]; cont[0] += 1
+            roles.append(None); roles.append(None)
+            walk(t[1], "elem", k)
+        else:
+            roles.append((role, c, t[1] in idl))
+    for tag, req, ity, name, dflt in sorted(mem):
+        walk(parse_type(ity), "member", None)
+    o = []
+    if len(roles) != len(sk):
+        return o
+    for k, r in enumerate(roles):
+        if r is None or r[1] is None or r[1] >= len(ranges) or r[2]:
+            continue
+        kv, vv, _ = ranges[r[1]]
+        if r[0] == "key" and kv != "_":
+            o.append("//@   site ).Write#%d assert [C03] $1 == %s" % (k, kv))
+        elif r[0] == "val" and vv != "_":
+            # (vector loops all call their element variable `v`: the name alone does not identify the loop, so the
+            # element writes are not covered by this clause)
+            o.append("//@   site ).Write#%d assert [C03] $1 == %s" % (k, vv))
+    return o
+
 def readblock_sites(idl, mem, src):
     """the ReadBlock calls of a generated ReadFrom in source order: (go type, is a map key/value temporary)"""
     out = []
@@ -540,7 +651,7 @@ def gen(pkg):
         if name == "WriteTo" and ty in idl and ty not in done:
             done.add(ty)
             sc = schema_contract(pkg, ty, idl[ty], go_fields(src, ty), idl, src)
-            sk = writer_skeleton_clauses(idl, idl[ty])
+            sk = writer_skeleton_clauses(idl, idl[ty]) + writer_value_clauses(idl, idl[ty], body)
             if sc:
                 # the tag skeleton goes into the WriteTo block of the functional contract (first "safety" line)
                 i = sc.index("//@   safety [C03]")
@@ -586,6 +697,7 @@ def gen(pkg):
             if ty in idl:
                 o += fresh_temporary_clauses(idl, idl[ty], src)
                 o += reader_skeleton_clauses(idl, idl[ty])
+                o += reader_storage_clauses(idl, idl[ty], body)
             o += ["//@   safety [C05]", "//"]
         elif name == "ReadBlock":
             o += ["//@ func (*%s).ReadBlock" % ty,
